@@ -802,8 +802,35 @@ def probe(name):
     for pre in ([cc] if cc else []) + LABELS:
         if same(lambda v: pre + v):
             info['prefixes'].append(pre)
+    # prefixes / suffixes the module's own examples show: an example whose alphanumeric characters are the canonical form plus
+    # a few more at one end (a unit number '000', a label) names a candidate, which is then tried on other numbers
+    learnt_pre, learnt_suf = [], []
+    for x in seeds(name)[:300]:
+        o = core.out(m.validate, x)
+        if o[0] != 'ok' or not isinstance(o[1], str) or not o[1]:
+            continue
+        ax = ''.join(c for c in x if c.isalnum()).upper()
+        av = ''.join(c for c in o[1] if c.isalnum()).upper()
+        if ax != av and 0 < len(ax) - len(av) <= 6:
+            if ax.startswith(av) and ax[len(av):] not in learnt_suf:
+                learnt_suf.append(ax[len(av):])
+            if ax.endswith(av) and ax[:-len(av)] not in learnt_pre:
+                learnt_pre.append(ax[:-len(av)])
+    def works_for_some(f):
+        # a learnt affix need only fit one kind of number of the module (the callers check acceptance case by case)
+        for v in pool(name)[:8]:
+            base = core.out(m.validate, v)
+            if base[0] == 'ok' and core.out(m.validate, f(v)) == base:
+                return True
+        return False
+    for pre in learnt_pre[:4]:
+        if pre not in info['prefixes'] and works_for_some(lambda v: pre + v):
+            info['prefixes'].append(pre)
     for suf in ['MVA', 'TVA', 'MWST', 'IVA']:
         if same(lambda v: v + suf):
+            info['suffixes'].append(suf)
+    for suf in learnt_suf[:4]:
+        if suf not in info['suffixes'] and works_for_some(lambda v: v + suf):
             info['suffixes'].append(suf)
     if any(c.isalpha() for v in p for c in v):
         info['lower'] = same(lambda v: v.lower())
